@@ -5,6 +5,7 @@ CONSTANTS
   StartPairs = {1, 2}
   MaxEdits = 1
   DistKinds = {"fpn", "missing", "wrf"}
+  NsCheckFirst = TRUE
   ReencodeBoth = FALSE
 INVARIANT WF
 PROPERTY DefaultFresh
@@ -12,4 +13,5 @@ PROPERTY DefaultRefreshes
 PROPERTY FlagUsesCaches
 PROPERTY FlagOnFreshIsCurrent
 PROPERTY EditsKeepCaches
+PROPERTY DiffNsRefused
 CHECK_DEADLOCK FALSE
